@@ -295,6 +295,14 @@ def r11_5(ctx):
         if not ok:
             ctx.violation(con, lp.loc if hasattr(lp, "loc") else f.loc(lp.node), f"allocation loop over {cls} candidates: {why}: candidates are not visited in priority order")
     ctx.require({TASK, WORKER, FACILITY, WORKPLACE} <= seen, f"allocation loops found only for {sorted(seen)}")
+    # a candidate loop that is left early hands the remaining (eligible) workers to lower-priority tasks
+    for s in sites:
+        wl = s.loops[-1]
+        for tr, ex in wl.alts:
+            if ex is not None and ex[0] in ("break", "return") and not any(isinstance(e, Mut) and e.attr == "allocated_worker_list" for e in tr):
+                ctx.violation(construct(f, "candidate-loop-early-exit"), wl.loc,
+                              f"the loop over a task's candidate workers can be left by `{ex[0]}` without allocating anybody: the candidates after the rejected one "
+                              f"remain free and are given to lower-priority tasks in the same step although this task could still accept them")
     ctx.end()
 
 
